@@ -1014,6 +1014,12 @@ func (c *Conn) dispatchLocked(fr *FrameHeader) bool {
 			err = errInvalidStatus
 		default:
 			r.gotStatus = c.hdrStatus >= 200
+
+			// An interim response announces the one to come: it cannot be
+			// what ends the stream (RFC 7540 section 8.1).
+			if !r.gotStatus && c.hdrEndStream {
+				err = errInvalidStatus
+			}
 		}
 	}
 
